@@ -52,3 +52,9 @@ mod tests {
         );
     }
 }
+
+#[cfg(noodles_verif)]
+#[doc(hidden)]
+pub fn __verif_encode_op(op: Op) -> Result<u32, EncodeError> {
+    encode_op(op)
+}
